@@ -144,7 +144,15 @@ def build_env(fn, keys, never_written):
     """Normal forms of pointer locals that are initialised once and of reference
     locals (a reference always denotes its initialiser's referent)."""
     from .frontend import walk, qtype
+    import re as _re
     env = {}
+    # a pointer parameter of a file-local helper that every caller binds to the first element of one container
+    for p in fn.get('inner', ()):
+        if isinstance(p, dict) and p.get('kind') == 'ParmVarDecl':
+            bound = (getattr(keys, 'subst', None) or {}).get(p.get('id'))
+            m = _re.match(r'^&\((.+)\[n:0\]\)$', bound or '')
+            if m and (qtype(p) or '').rstrip().endswith('*'):
+                env[p['id']] = ('ptr', m.group(1), {})
     for x in walk(fn):
         if x.get('kind') != 'VarDecl' or 'init' not in x:
             continue
